@@ -356,6 +356,19 @@ func corruptCase(d *doc, c corruption) lib.Case {
 		CoqModel: loadTerm(outer, wellFormed)}
 }
 
+// someDoc: a base document for classes that alter a written file.  A payload the writer cannot turn into a JSON document
+// is the business of the round-trip classes (reported there with the payload); here the next generated payload is taken
+func someDoc(gen func() (*doc, error)) *doc {
+	var err error
+	for i := 0; i < 200; i++ {
+		var d *doc
+		if d, err = gen(); err == nil {
+			return d
+		}
+	}
+	panic(err)
+}
+
 // the deprecated loader called twice on the same Metablock: the signature list of the
 // first file is what the second one is decoded into (no demand by the property: model tie)
 func reloadCase(r *lib.Rng) lib.Case {
@@ -364,14 +377,8 @@ func reloadCase(r *lib.Rng) lib.Case {
 	for i := r.Range(0, 3); i > 0; i-- {
 		sb = append(sb, intoto.Signature{KeyID: hexStr(r, 8), Sig: hexStr(r, 8)})
 	}
-	da, err := makeDoc("L", genLink(r), sa)
-	if err != nil {
-		panic(err)
-	}
-	db, err := makeDoc("L", genPayload(r, r.Bool(), false), sb)
-	if err != nil {
-		panic(err)
-	}
+	da := someDoc(func() (*doc, error) { return makeDoc("L", genLink(r), sa) })
+	db := someDoc(func() (*doc, error) { return makeDoc("L", genPayload(r, r.Bool(), false), sb) })
 	ta, tb := da.Outer.JSON(), db.Outer.JSON()
 	impl := runReload(ta, tb)
 	model := "(let ta := " + da.Outer.Coq() + " in let tb := " + db.Outer.Coq() +
@@ -1033,14 +1040,8 @@ func gen(out string, n int) {
 	// a valid document followed by blanks and junk, the junk starting around 64 KiB, 1 MiB, 2 MiB, 4 MiB
 	{
 		rp := rr.Fork()
-		dl, err := makeDoc("L", genLink(rp), []intoto.Signature{{KeyID: "ab12", Sig: "cafe"}})
-		if err != nil {
-			panic(err)
-		}
-		dd, err := makeDoc("D", genLink(rp), []intoto.Signature{{KeyID: "ab12", Sig: "cafe"}})
-		if err != nil {
-			panic(err)
-		}
+		dl := someDoc(func() (*doc, error) { return makeDoc("L", genLink(rp), []intoto.Signature{{KeyID: "ab12", Sig: "cafe"}}) })
+		dd := someDoc(func() (*doc, error) { return makeDoc("D", genLink(rp), []intoto.Signature{{KeyID: "ab12", Sig: "cafe"}}) })
 		for _, m := range []struct {
 			name string
 			at   int
@@ -1082,10 +1083,7 @@ func gen(out string, n int) {
 		for len(sigs) == 0 {
 			sigs = genSigs(rb, wr)
 		}
-		d, err := makeDoc(wr, genPayload(rb, isLink, true), sigs)
-		if err != nil {
-			panic(err)
-		}
+		d := someDoc(func() (*doc, error) { return makeDoc(wr, genPayload(rb, isLink, true), sigs) })
 		cs := enumerate(d, isLink)
 		quota := per
 		if !isLink {
